@@ -358,6 +358,26 @@ Theorem C13_collect_reads_irrelevant : forall md bk keys h,
 Proof. intros. apply collect_final_data. intros i. apply total_drop_reads. Qed.
 Print Assumptions C13_collect_arrival_order.
 
+(* ---- tables with Trim (spark, heatmap, table) ---- *)
+(* The sorted rows / columns of a TableAggregator, and which of them are left, are a function of
+   the FINAL cells alone: two histories of samples, reads and trims (keep the last n columns in the
+   column sorter's order, value predicates, column sets) that end with the same cells give the same
+   answer - no cached sum, total or earlier frame can matter. *)
+Theorem C13_table_final_cells : forall md mdc br rk ck h1 h2,
+  (forall c r, cget (final_cells mdc ck (List.length ck) (List.length rk) h1) c r =
+               cget (final_cells mdc ck (List.length ck) (List.length rk) h2) c r) ->
+  model (ITable md mdc br rk ck h1) = model (ITable md mdc br rk ck h2).
+Proof. exact table_final_cells. Qed.
+Print Assumptions C13_table_final_cells.
+(* the documented example: a row whose remaining cells sum to 10 comes before one summing to 3 in
+   `value` order after the column holding the 20 has been trimmed away *)
+Example C13_table_example :
+  let k (s : string) := mkkey (of_str s) None FmtErr [] in
+  model (ITable (of_str "value") (of_str "text") true [k "a"; k "b"; k "c"] [k "x"; k "y"]
+           [TSample 0 0 20; TSample 1 0 3; TSample 1 1 10; TSample 1 2 5; TRead; TTrimCols [0%nat]; TRead])
+  = OTable [0; 1; 2]%nat [1; 2; 0]%nat.
+Proof. vm_compute. reflexivity. Qed.
+
 (* non-vacuity: a mixed-case weekday set with a tie, a non-member and a month sorts as stated *)
 Definition kx (s : string) := mkkey (of_str s) None FmtErr [].
 Example C13_example_weekdays :
